@@ -184,12 +184,13 @@ Lemma sess_post_recv_replay s p x :
   snd (post_recv (ps_win s) (p_ctr p) (mode_enc (ps_mode s)) false) = false ->
   sess_post_recv s p x = (s, Err ERR_DUPLICATE).
 Proof.
-  intro H. unfold sess_post_recv, session_post_recv.
+  intro H. unfold sess_post_recv, session_post_recv, session_post_recv_raw.
+  destruct (effective_fields (core s) (msg_of p x)) as [_ [_ [_ [Ec _]]]]. rewrite Ec.
   cbn [core s_win s_enc m_ctr msg_of].
   destruct (post_recv (ps_win s) (p_ctr p) (mode_enc (ps_mode s)) false) as [w' fresh] eqn:Hp.
   cbn [snd] in H. subst fresh. cbn [negb].
   apply post_recv_reject_same in Hp. subst w'.
-  unfold set_win, with_core. cbn [s_id s_key s_enc s_expired s_exchs s_win core].
+  unfold set_win, with_core. cbn [s_id s_key s_enc s_group s_expired s_exchs s_win core].
   f_equal. destruct s; reflexivity.
 Qed.
 
